@@ -301,16 +301,308 @@ def run_syntax(shard):
     return acc
 
 
+# ---------------------------------------------------------------------------------------------------------------
+# stereo marks in SMARTS: @ / @@ on atoms and / \ around double bonds
+# ---------------------------------------------------------------------------------------------------------------
+STEREO_BASES = ['F/C=C(/Cl)C(/Br)=C/F', 'C[C@]1(F)CCCO1', 'C[C@]12CCCC[C@H]1OCC2', 'C[C@H](F)[C@@H](Cl)C', 'C[C@H](O)/C=C/Cl', 'F/C=C/Cl', 'F/C=C(/Cl)C', 'F/C(Cl)=C(/Br)I', 'F/C=C/C=C/F',
+                'C/C=C/C(C)=C/C', 'C/C=C1/CCCO1', 'C1CCCC/C=C/CCCC1', 'N[C@@H](C)C(=O)O', 'C[C@H]1CC[C@@H](O)CC1', 'C[C@](F)(Cl)Br']
+STEREO_BASES_QUICK = ['C[C@]1(F)CCCO1', 'C[C@]12CCCC[C@H]1OCC2', 'C[C@H](O)/C=C/Cl', 'F/C=C(/Cl)C', 'F/C(Cl)=C(/Br)I', 'C/C=C/C(C)=C/C', 'C/C=C1/CCCO1']
+BOND_DECOR = [('=', True), ('=;!@', True), ('=,#', True), ('=,:', True), ('!-', True), ('=;@', False)]
+
+
+def _rd():
+    from rdkit import Chem, RDLogger
+    RDLogger.DisableLog('rdApp.*')
+    return Chem
+
+
+def stereo_variants(base):
+    """every labelled / partly labelled / unlabelled variant of a base molecule, as RDKit canonical SMILES"""
+    Chem = _rd()
+    m0 = Chem.MolFromSmiles(base)
+    centres = [a.GetIdx() for a in m0.GetAtoms() if a.GetChiralTag() != Chem.ChiralType.CHI_UNSPECIFIED]
+    dbonds = [b.GetIdx() for b in m0.GetBonds() if b.GetStereo() != Chem.BondStereo.STEREONONE]
+    out = {}
+    for ca in itertools.product((None, Chem.ChiralType.CHI_TETRAHEDRAL_CW, Chem.ChiralType.CHI_TETRAHEDRAL_CCW), repeat=len(centres)):
+        for cb in itertools.product((None, Chem.BondStereo.STEREOE, Chem.BondStereo.STEREOZ), repeat=len(dbonds)):
+            m = Chem.RWMol(m0)
+            for i, t in zip(centres, ca):
+                m.GetAtomWithIdx(i).SetChiralTag(t or Chem.ChiralType.CHI_UNSPECIFIED)
+            for i, t in zip(dbonds, cb):
+                b = m.GetBondWithIdx(i)
+                if t is None:
+                    b.SetStereo(Chem.BondStereo.STEREONONE)
+                else:
+                    sa = list(m0.GetBondWithIdx(i).GetStereoAtoms())
+                    b.SetStereoAtoms(sa[0], sa[1])
+                    b.SetStereo(t)
+            smi = Chem.MolToSmiles(m)
+            m2 = Chem.MolFromSmiles(smi)
+            if m2 is None:
+                continue
+            out.setdefault(Chem.MolToSmiles(m2), m2)
+    return out
+
+
+def spellings(mol, limit=None):
+    """SMILES spellings of one RDKit molecule: every root x three atom numberings, not canonical"""
+    Chem = _rd()
+    n = mol.GetNumAtoms()
+    seen = []
+    perms = [list(range(n)), list(range(n))[::-1], [(3 * i + 1) % n for i in range(n)] if n % 3 else [(2 * i + 1) % n if n % 2 else i for i in range(n)]]
+    for p in perms:
+        if sorted(p) != list(range(n)):
+            continue
+        mm = Chem.RenumberAtoms(mol, p)
+        for root in range(n):
+            for kek in (False,):
+                s = Chem.MolToSmiles(mm, canonical=False, rootedAtAtom=root)
+                if s not in seen:
+                    seen.append(s)
+    return seen[:limit] if limit else seen
+
+
+_BRACKET_H = None
+
+
+def smiles_to_smarts(text):
+    """the same text in the documented SMARTS subset: [C@H] -> [C@;h1]; None when the convention for the text is not defined
+    (chiral first atom carrying an implicit hydrogen: SMILES counts the hydrogen as the first neighbour, the SMARTS subset has no such rule)"""
+    import re
+    first = re.match(r'\[[A-Za-z]+@+H', text)
+    if first:
+        return None
+    if '[H]' in text:
+        return None
+
+    def sub(mo):
+        el, mark, h = mo.group(1), mo.group(2), mo.group(3)
+        hn = 1 if h in ('H', 'H1') else int(h[1:])
+        return '[%s%s;h%d]' % (el, mark, hn)
+    return re.sub(r'\[([A-Z][a-z]?)(@{1,2})(H\d?)\]', sub, text)
+
+
+def _count(qtext, ttext, cache):
+    from chython import smarts, smiles
+    if ttext not in cache:
+        cache[ttext] = smiles(ttext)
+    q = smarts(qtext)
+    return sum(1 for _ in q.get_mapping(cache[ttext], automorphism_filter=False, _cython=False))
+
+
+def stereo_case(qtext, qsmiles, ttext, cache=None):
+    """(expected number of mappings by RDKit chirality-aware matching of the SMILES reading, chython count)"""
+    Chem = _rd()
+    cache = {} if cache is None else cache
+    qm = Chem.MolFromSmiles(qsmiles)
+    tm = Chem.MolFromSmiles(ttext)
+    exp = len(tm.GetSubstructMatches(qm, useChirality=True, uniquify=False, maxMatches=100000))
+    return exp, _count(qtext, ttext, cache)
+
+
+def run_stereo_generic(shard):
+    base, tier = shard
+    acc = Acc()
+    Chem = _rd()
+    variants = stereo_variants(base)
+    cache = {}
+    tkeys = sorted(variants)
+    for vi, (vt, vm) in enumerate(sorted(variants.items())):
+        sp = spellings(vm)
+        if tier == 'quick':
+            sp = sp[::2] if len(sp) > 12 else sp
+        for text in sp:
+            q = smiles_to_smarts(text)
+            if q is None:
+                acc.ood['chiral first atom with implicit hydrogen: no documented convention in the SMARTS subset'] += 1
+                continue
+            acc.states += 1
+            for tt in tkeys:
+                acc.transitions += 1
+                try:
+                    exp, got = stereo_case(q, text, tt, cache)
+                except Exception as e:
+                    acc.fail('stereo SMARTS raises %s :: %s' % (type(e).__name__, base), kind='generic', smarts=q, smiles=text, target=tt)
+                    continue
+                acc.outcomes['match' if exp else 'no match'] += 1
+                if (exp > 0) != (got > 0):
+                    acc.fail('stereo-marked SMARTS %s where the SMILES reading of the same text (RDKit, chirality-aware) %s :: %s :: %s' % (
+                        'matches' if got else 'does not match', 'does not' if got else 'does', base, _stereo_shape(text)), kind='generic', smarts=q, smiles=text, target=tt, expected=exp, chython=got)
+                elif exp != got:
+                    acc.fail('stereo-marked SMARTS gives %d mappings, chirality-aware reference %d :: %s' % (got, exp, base), kind='generic', smarts=q, smiles=text, target=tt, expected=exp, chython=got)
+    acc.sample({'base': base, 'variants': len(variants)})
+    return acc
+
+
+def _stereo_shape(text):
+    """coarse class of a spelling, for failure de-duplication"""
+    import re
+    cls = []
+    if re.match(r'\[[A-Za-z]+@+\]?\d', text) or re.match(r'\[[A-Za-z]+@+[^\]]*\]\d', text):
+        cls.append('chiral first atom opens a ring')
+    if re.search(r'@+[^\]]*\]\d\d|@+[^\]]*\]\d%|@+[^\]]*\]%\d\d\d', text):
+        cls.append('chiral atom with two ring digits')
+    if re.search(r'\([/\\][^()]*\)[/\\]', text) or re.search(r'\((?:[^()/\\])[^()]*\)[/\\]', text):
+        cls.append('double-bond atom with two substituents')
+    return ', '.join(cls) or 'plain'
+
+
+def run_stereo_templates(shard):
+    """hand-built centre texts: every neighbour order x both marks x position (middle / first / fragment with the last neighbour dropped) + decorated double bonds + allenes"""
+    from chython import smarts, smiles
+    part, tier = shard
+    acc = Acc()
+    Chem = _rd()
+    cache = {}
+    if part == 'tet4':
+        subs = ('F', 'Cl', 'Br', 'I')
+        targets = ['F[C@](Cl)(Br)I', 'F[C@@](Cl)(Br)I', 'FC(Cl)(Br)I']
+        for p in itertools.permutations(subs):
+            a, b, c, d = p
+            for mark in ('@', '@@', ''):
+                br = '[C%s]' % mark if mark else 'C'
+                full_mid = '%s%s(%s)(%s)%s' % (a, br, b, c, d)
+                full_first = '%s(%s)(%s)(%s)%s' % (br, a, b, c, d)
+                forms = [(full_mid, full_mid, 'middle'), (full_first, full_first, 'first'),
+                         ('%s%s(%s)%s' % (a, br, b, c), full_mid, 'middle, last neighbour dropped'), ('%s(%s)(%s)%s' % (br, a, b, c), full_first, 'first, last neighbour dropped'),
+                         ('%s%s(%s)(%s)[%s,At]' % (a, br, b, c, d), full_mid, 'middle, element list neighbour'), ('%s[C%s%s](%s)(%s)%s' % (a, mark, ';D4', b, c, d), full_mid, 'middle, with D4')]
+                for q, qs, form in forms:
+                    acc.states += 1
+                    for tt in targets:
+                        acc.transitions += 1
+                        try:
+                            exp, _ = stereo_case('C', qs, tt, cache)
+                            got = _count(q, tt, cache)
+                        except Exception as e:
+                            acc.fail('stereo SMARTS raises %s :: tetrahedral %s' % (type(e).__name__, form), kind='tet4', smarts=q, smiles=qs, target=tt)
+                            continue
+                        acc.outcomes['match' if exp else 'no match'] += 1
+                        if exp != got:
+                            acc.fail('tetrahedral mark in SMARTS disagrees with the SMILES reading of the centre :: %s' % form, kind='tet4', smarts=q, smiles=qs, target=tt, expected=exp, chython=got)
+    elif part == 'tet3h':
+        subs = ('C', 'F', 'Cl')
+        targets = ['C[C@H](F)Cl', 'C[C@@H](F)Cl', 'CC(F)Cl', 'C[C@](F)(Cl)Br', 'C[C@@](F)(Cl)Br']
+        for p in itertools.permutations(subs):
+            a, b, c = p
+            for mark in ('@', '@@'):
+                # SMILES equivalents: hydrogen (or the unnamed fourth neighbour) LAST in the neighbour list
+                for q, form in (('%s[C%s;h1](%s)%s' % (a, mark, b, c), 'middle ;h1'), ('%s[C%s](%s)%s' % (a, mark, b, c), 'middle'), ('[C%s](%s)(%s)%s' % (mark, a, b, c), 'first'),
+                                ('[C%s;h1](%s)(%s)%s' % (mark, a, b, c), 'first ;h1')):
+                    acc.states += 1
+                    for tt in targets:
+                        last = 'Br' if 'Br' in tt else '[H]'
+                        if 'h1' in q and last == 'Br':
+                            qs = None
+                        elif form.startswith('middle'):
+                            qs = '%s[C%s](%s)(%s)%s' % (a, mark, b, c, last)
+                        else:
+                            qs = '[C%s](%s)(%s)(%s)%s' % (mark, a, b, c, last)
+                        acc.transitions += 1
+                        try:
+                            got = _count(q, tt, cache)
+                            if qs is None:
+                                exp = 0
+                            else:
+                                qm = Chem.MolFromSmiles(qs)
+                                tm = Chem.AddHs(Chem.MolFromSmiles(tt)) if last == '[H]' else Chem.MolFromSmiles(tt)
+                                if last == '[H]':
+                                    qm = Chem.MolFromSmiles(qs, sanitize=False)
+                                    ps = Chem.SmilesParserParams()
+                                    ps.removeHs = False
+                                    qm = Chem.MolFromSmiles(qs, ps)
+                                    # keep only the one explicit H of the centre as a query atom; other hydrogens stay implicit
+                                exp = 1 if tm.HasSubstructMatch(qm, useChirality=True) else 0
+                        except Exception as e:
+                            acc.fail('stereo SMARTS raises %s :: tetrahedral three neighbours %s' % (type(e).__name__, form), kind='tet3h', smarts=q, target=tt)
+                            continue
+                        acc.outcomes['match' if exp else 'no match'] += 1
+                        if exp != (1 if got else 0):
+                            acc.fail('tetrahedral mark on a three-neighbour SMARTS atom disagrees with the reading "unnamed neighbour last" :: %s' % form, kind='tet3h', smarts=q, smiles=qs, target=tt,
+                                     expected=exp, chython=got)
+    elif part == 'decor':
+        targets = ['F/C=C/Cl', 'F/C=C\\Cl', 'FC=CCl', 'F/C=C(/Cl)C', 'F/C=C(\\Cl)C', 'FC=C(Cl)C', 'F/C1=C(/Cl)CCCCCCCC1', 'FC1=C(Cl)CCCC1']
+        bases = ['F/C=C/Cl', 'F/C=C\\Cl', 'F\\C=C\\Cl', 'C(/F)=C/Cl', 'C(\\F)=C/Cl', 'Cl/C=C/F', 'F/C=C(/Cl)C', 'F/C=C(\\Cl)C', 'F/C=C(C)/Cl', 'F/C=C(C)\\Cl', 'C(\\C)(/Cl)=C/F', 'CC(/Cl)=C/F', 'C/C(Cl)=C/F',
+                 'FC=C/Cl', 'F/C=CCl', 'F/C=C(Cl)C']
+        for b in bases:
+            for dec, keeps in BOND_DECOR:
+                q = b.replace('=', dec)
+                acc.states += 1
+                for tt in targets:
+                    acc.transitions += 1
+                    try:
+                        got = _count(q, tt, cache)
+                    except ValueError:
+                        acc.outcomes['rejected as invalid SMARTS'] += 1
+                        if dec in ('=', '=;!@', '=;@', '=,#', '=,:'):
+                            acc.fail('documented bond primitive with cis/trans marks rejected :: %s' % dec, kind='decor', smarts=q, target=tt)
+                        break
+                    except Exception as e:
+                        acc.fail('stereo SMARTS raises %s :: bond primitive %s between / \\ marks' % (type(e).__name__, dec), kind='decor', smarts=q, target=tt)
+                        break
+                    # reference: plain text by RDKit on the target, then the bond primitive on the target's bond
+                    tm = Chem.MolFromSmiles(tt)
+                    qm = Chem.MolFromSmiles(b)
+                    exp = len(tm.GetSubstructMatches(qm, useChirality=True, uniquify=False))
+                    if dec == '=;@':
+                        exp = exp if 'C1' in tt else 0
+                    elif dec == '=;!@':
+                        exp = 0 if 'C1' in tt else exp
+                    acc.outcomes['match' if exp else 'no match'] += 1
+                    if exp != got:
+                        acc.fail('cis/trans-marked SMARTS double bond %s disagrees with the reference :: primitive %s :: %s' % ('matches' if got else 'does not match', dec, _stereo_shape(b)), kind='decor',
+                                 smarts=q, smiles=b, target=tt, expected=exp, chython=got)
+    elif part == 'allene':
+        # RDKit does not read allene marks: relational oracle on the library reader (checked on its own by C03/C12):
+        # the text as SMARTS matches the text as SMILES, not its mirror image, and swapping the two substituents of one end flips it
+        ends = [('C', 'F'), ('F', 'C')]
+        ends2 = [('Cl', 'C'), ('C', 'Cl')]
+        for (a, b) in ends:
+            for (d, e) in ends2:
+                for mark in ('@', '@@'):
+                    text = '%sC(%s)=[C%s]=C(%s)%s' % (a, b, mark, d, e)
+                    other = '%sC(%s)=[C%s]=C(%s)%s' % (a, b, '@' if mark == '@@' else '@@', d, e)
+                    swapped = '%sC(%s)=[C%s]=C(%s)%s' % (b, a, mark, d, e)
+                    plain = '%sC(%s)=C=C(%s)%s' % (a, b, d, e)
+                    acc.states += 1
+                    for tt, exp in ((text, 1), (other, 0), (swapped, 0), (plain, 0)):
+                        acc.transitions += 1
+                        try:
+                            got = _count(text, tt, cache)
+                        except Exception as e:
+                            acc.fail('stereo SMARTS raises %s :: allene' % type(e).__name__, kind='allene', smarts=text, target=tt)
+                            continue
+                        acc.outcomes['match' if exp else 'no match'] += 1
+                        if (got > 0) != bool(exp):
+                            acc.fail('allene mark in SMARTS disagrees with the SMILES reading of the same text', kind='allene', smarts=text, target=tt, expected=exp, chython=got)
+                    acc.transitions += 1
+                    if _count(plain, text, cache) < 1:
+                        acc.fail('unmarked SMARTS does not match the labelled allene', kind='allene', smarts=plain, target=text)
+    return acc
+
+
 def plan(tier, seed):
     return [Stage('atom primitives and pairs', run_atoms, [(k, 64, tier) for k in range(64)], '10 element specs x (27 primitives + all pairs) (+charges, isotopes) x every atom of the molecule scope'),
             Stage('bond primitives', run_bonds, [(k, 21, tier) for k in range(21)], '%d bond primitives (orders, lists, negations, ring/non-ring) x every bond of the molecule scope' % len(BONDS)),
-            Stage('unsupported / malformed SMARTS', run_syntax, [0], 'unsupported constructs and all token strings of length <=3: ValueError family or a query')]
+            Stage('unsupported / malformed SMARTS', run_syntax, [0], 'unsupported constructs and all token strings of length <=3: ValueError family or a query'),
+            Stage('stereo marks: templates', run_stereo_templates, [(p, tier) for p in ('tet4', 'tet3h', 'decor', 'allene')],
+                  'tetrahedral centre texts: all 24/6 neighbour orders x both marks x middle/first/fragment forms; cis/trans texts x 6 bond primitives; allene texts; x labelled/unlabelled targets'),
+            Stage('stereo marks: spellings', run_stereo_generic, [(b, tier) for b in (STEREO_BASES_QUICK if tier == 'quick' else STEREO_BASES)],
+                  'every (partly) labelled variant of each base x RDKit spellings (every root x 3 numberings) as SMARTS x every variant as target, vs chirality-aware RDKit matching of the SMILES reading')]
 
 
 def replay(rec):
     from chython import smarts, smiles
     from chython.periodictable import Element
     key = rec['key']
+    if rec.get('kind') == 'generic':
+        try:
+            exp, got = stereo_case(rec['smarts'], rec['smiles'], rec['target'])
+        except Exception:
+            return [{'key': key}]
+        return [{'key': key}] if exp != got else []
+    if rec.get('kind') in ('tet4', 'tet3h', 'decor', 'allene'):
+        a = run_stereo_templates((rec['kind'], 'quick'))
+        return [f for f in a.fails if f['key'] == key]
     if 'unsupported' in key or 'unrelated exception' in key:
         a = run_syntax(0)
         return [f for f in a.fails if f['key'] == key]
